@@ -171,7 +171,37 @@ class Inner:
         pat = strip_pat(st["pat"])
         cases = self._cases(st["body"], pat, it, mode="mutate" if it["mode"] == "iter_mut" else "effect")
         mode = "mutate" if it["mode"] == "iter_mut" else "effect"
+        built = None
+        if mode == "effect" and cases and not any(cs_.get("unrecognised") for cs_ in cases):
+            # `let mut out = Vec::new(); for x in list { .. out.push(y) }`: when every case pushes exactly one value onto the
+            # same fresh local vector (as its last effect), the loop is the element-wise map x -> y collected into `out`
+            tgt = set()
+            ok_ = True
+            for cs_ in cases:
+                pushes = [x for x in cs_["effects"] if isinstance(x, dict) and rx.peel(x).get("k") == "mcall" and rx.peel(x)["m"] == "push" and len(rx.peel(x)["args"]) == 1 and rx.var_name(rx.peel(x)["recv"]) is not None]
+                if len(pushes) != 1 or rx.peel(cs_["effects"][-1]) is not rx.peel(pushes[0]):
+                    ok_ = False
+                    break
+                tgt.add(rx.var_name(rx.peel(pushes[0])["recv"]))
+            if ok_ and len(tgt) == 1:
+                nm = next(iter(tgt))
+                cur = self.env.get(nm)
+                if isinstance(cur, dict) and ((cur["v"] == "fresh" and cur.get("ty") == "Vec") or (cur["v"] == "vec" and not cur.get("elems"))):
+                    for cs_ in cases:
+                        pe_ = rx.peel(cs_["effects"][-1])
+                        val = pe_["args"][0]
+                        catch = None
+                        if cs_.get("pat") is not None:
+                            p0 = strip_pat(cs_["pat"])
+                            if p0["k"] == "ident" and p0.get("sub") is None:
+                                catch = p0["name"]
+                        cs_["result"] = "same" if (rx.is_var(val, cs_["elem"]) or (catch and rx.is_var(val, catch))) else val
+                        cs_["effects"] = cs_["effects"][:-1]
+                    mode = "map"
+                    built = nm
         i = self.ev_add(e="each", over=it["base"], mode=mode, enum=it["enum"], adaptors=it["adaptors"], cases=cases, spelling="for", l=st.get("l"))
+        if built is not None:
+            self.env[built] = V("list", **{"from": i})
         if mode == "mutate":
             # the list is updated in place: from here on the variable holds the traversed list
             for nme, v in list(self.env.items()):
@@ -334,6 +364,8 @@ class Inner:
             segs = f["segs"]
             if segs[-1] in ("default", "new") and not e["args"] and len(segs) >= 2:
                 return V("fresh", ty=segs[-2], ctor=segs[-1], src=src(e))
+            if segs[-2:] == ["Vec", "with_capacity"] and len(e["args"]) == 1:
+                return V("fresh", ty="Vec", ctor="new", src=src(e))  # the capacity is a hint only
             # application of a parser function to a list value: precedence::parser(&mut tokens.as_slice())
             r = self.b._resolve_fn_path(f, self.benv)
             if r is not None and len(e["args"]) == 1:
